@@ -9,6 +9,8 @@ named quick checks (must report VIOLATION / exit 1), and always restore /repo.
 Mutants are (file, old, new) text replacements; nothing is ever committed to /repo.
 Seeded changes written by independent sub-agents live in /verif/seeded/<id>/patch.diff
 and are run with  tools/mutants.py seeded <id|all> [--suite].
+Property-PRESERVING changes (false-alarm test) live in /verif/benign/<id>/patch.diff and are
+run with  tools/mutants.py benign <id|all> [--suite] [--record]: every check must stay silent.
 """
 import subprocess, sys, os, json, time, glob
 
@@ -82,11 +84,14 @@ def one(name, apply_fn, expected, args):
         status = "CAUGHT" if caught else ("silent (expected)" if not expected else "MISSED")
         print("%-34s %s%s caught_by=%s expected=%s%s%s" % (name, s, status, ",".join(caught) or "-", ",".join(expected) or "-", (" NOT-BY=" + ",".join(missed)) if missed else "", (" MACHINERY=" + ",".join(broken)) if broken else ""))
         if args.get("record"):
-            rp = os.path.join(VERIF, "seeded", "RESULTS.json")
+            rdir = args.get("results_dir", "seeded")
+            rp = os.path.join(VERIF, rdir, "RESULTS.json")
             allr = json.load(open(rp)) if os.path.exists(rp) else {}
             allr[name] = {"caught_by": caught, "expected": expected, "suite": s.strip(), "classes": {c: v[3][:3] for c, v in res.items() if v[0] == 1}}
+            if rdir == "benign":
+                allr[name] = {"alarms": caught, "machinery_exits": broken, "suite": s.strip(), "tier": args.get("tier", "quick"), "classes": allr[name]["classes"]}
             json.dump(allr, open(rp, "w"), indent=1, sort_keys=True)
-            mp = os.path.join(VERIF, "seeded", name, "meta.json")
+            mp = os.path.join(VERIF, rdir, name, "meta.json") if rdir == "seeded" else "/nonexistent"
             if os.path.exists(mp):
                 m = json.load(open(mp))
                 m["caught_by"] = caught
@@ -118,6 +123,16 @@ def main():
                 if src.count(old) != 1: return False
                 open(p, "w").write(src.replace(old, new, 1)); return True
             one(name, ap, exp, args)
+    elif a[0] == "benign":
+        # property-preserving changes (refactorings, optimisations, unconstrained behaviour): every
+        # check must stay silent; an alarm here is a false alarm of the machinery
+        for d in sorted(glob.glob(os.path.join(VERIF, "benign", "*"))):
+            sid = os.path.basename(d)
+            if not os.path.isdir(d) or (which != "all" and which != sid): continue
+            def ap(d=d):
+                return sh("git apply %s" % os.path.join(d, "patch.diff"), cwd=REPO).returncode == 0
+            args2 = dict(args); args2["results_dir"] = "benign"
+            one(sid, ap, [], args2)
     elif a[0] == "seeded":
         for d in sorted(glob.glob(os.path.join(VERIF, "seeded", "*"))):
             sid = os.path.basename(d)
